@@ -507,6 +507,31 @@ pub fn long_string(utf8_only: bool, with_8bit: bool) -> BoxedStrategy<Vec<u8>> {
         .boxed()
 }
 
+/// A long run of visible text (block-size boundaries), optionally with a few
+/// multi-byte characters, whitespace controls or digits/separators inside.
+pub fn long_text(ascii_only: bool) -> BoxedStrategy<Vec<u8>> {
+    (
+        prop_oneof![3 => select(vec![63usize, 64, 65, 127, 128, 129, 255, 256, 257, 511, 512, 513, 1023, 1024, 1025, 4095, 4096, 4097]), 1 => 50usize..3000],
+        select(vec![b'a', b' ', b'0', b'x', b';']),
+        proptest::collection::vec((any::<u16>(), 0u8..5), 0..5),
+    )
+        .prop_map(move |(len, fill, extras)| {
+            let mut cells: Vec<Vec<u8>> = vec![vec![fill]; len];
+            for (frac, kind) in extras {
+                let pos = (frac as usize * len) >> 16;
+                cells[pos] = match kind {
+                    0 if !ascii_only => "\u{e9}".as_bytes().to_vec(),
+                    1 if !ascii_only => "\u{1f600}".as_bytes().to_vec(),
+                    2 => vec![b'\n'],
+                    3 => vec![b'\t'],
+                    _ => vec![b'm'],
+                };
+            }
+            cells.concat()
+        })
+        .boxed()
+}
+
 pub fn bad_utf8() -> BoxedStrategy<Vec<u8>> {
     prop_oneof![
         vec(0x80u8..=0xbf, 1..=2),                       // lone continuation
@@ -607,6 +632,7 @@ pub fn item(cfg: StreamCfg) -> BoxedStrategy<Item> {
         opts.push((2, raw("dcs", dcs_seq(u, e8))));
         opts.push((1, raw("sos-pm-apc", sos_seq(u, e8))));
     }
+    opts.push((1, raw("long-text", long_text(cfg.seven_bit))));
     if cfg.strings {
         // string sequences with long payloads (block-size / buffer-size boundaries)
         opts.push((1, raw("long-string", long_string(u, e8))));
@@ -810,6 +836,7 @@ pub fn sgr_item(cfg: SgrStreamCfg) -> BoxedStrategy<Item> {
     if cfg.c0 {
         opts.push((1, raw("c0", c0_byte().prop_map(|b| vec![b]))));
     }
+    opts.push((1, raw("long-text", long_text(false).prop_map(|mut v| { v.truncate(700); while std::str::from_utf8(&v).is_err() { v.pop(); } v }))));
     if cfg.xml_text {
         opts.push((4, raw("text-xml", xml_text())));
         opts.push((1, raw("crlf", Just(b"\r\n".to_vec()))));
